@@ -309,12 +309,55 @@ Definition texts_of (tb : text_tables) : texts :=
      cid_txt := lookup2 (t_cid tb);
      addr_txt := lookup3 akind_eqb (t_addr tb) |}.
 
-(* one COMPARE case: tables, type, two values -> (well-typed?, pytezos result, spec result) *)
-Definition compare_case (x : text_tables * cty * val * val) : bool * Z * Z :=
-  let '(tb, t, a, b) := x in
-  let w := has_type t a && has_type t b in
-  (w, cmp_Z (py_compare (texts_of tb) a b), if w then cmp_Z (cmp t a b) else 0%Z).
+(* ---------------------------------------------------------------- concrete base58check texts
+   A base58check text of fixed width is the big-endian number of prefix ++ payload ++ checksum
+   written with [len] base-58 digits.  Only the 4-byte checksum (double SHA-256) stays an oracle.
+   Proofs/Compare_proofs.v shows that these texts satisfy the order laws of [texts_ok]; the
+   correspondence run compares them with the real strings. *)
+Definition b58_alphabet : bytes :=
+  tx "123456789ABCDEFGHJKLMNPQRSTUVWXYZabcdefghijkmnopqrstuvwxyz"%string.
 
-Definition compare_case_eqb (x y : bool * Z * Z) : bool :=
-  let '(w1, p1, s1) := x in let '(w2, p2, s2) := y in
-  Bool.eqb w1 w2 && Z.eqb p1 p2 && Z.eqb s1 s2.
+Definition b58_char (d : N) : byte := nth (N.to_nat d) b58_alphabet x00.
+
+Fixpoint b58_fixed (len : nat) (n : N) : bytes :=
+  match len with
+  | O => []
+  | S l => b58_char (n / 58 ^ N.of_nat l) :: b58_fixed l (n mod 58 ^ N.of_nat l)
+  end.
+
+(* big-endian value of a byte string *)
+Fixpoint nb (l : bytes) : N :=
+  match l with
+  | [] => 0%N
+  | x :: r => (Byte.to_N x * 256 ^ N.of_nat (List.length r) + nb r)%N
+  end.
+
+Definition kh_prefix (c : curve) : bytes :=
+  match c with
+  | Ed => [x06; xa1; x9f] | Secp => [x06; xa1; xa1] | P256 => [x06; xa1; xa4] | Bls => [x06; xa1; xa6]
+  end.
+Definition cid_prefix : bytes := [x57; x52; x00].
+
+Definition kh_text (ck : bytes -> bytes) (c : curve) (h : bytes) : bytes :=
+  let body := kh_prefix c ++ h in b58_fixed 36 (nb (body ++ ck body)).
+Definition cid_text (ck : bytes -> bytes) (x : bytes) : bytes :=
+  let body := cid_prefix ++ x in b58_fixed 15 (nb (body ++ ck body)).
+
+(* checksum oracle from a table body -> 4 bytes (supplied by the run) *)
+Definition ck_of (tbl : list (bytes * bytes)) : bytes -> bytes := lookup2 tbl.
+
+(* do the concrete texts reproduce the real strings of the tables? *)
+Definition texts_match (cks : list (bytes * bytes)) (tb : text_tables) : bool :=
+  forallb (fun e => let '(c, h, t) := e in bytes_eqb (kh_text (ck_of cks) c h) t) (t_kh tb) &&
+  forallb (fun e => let '(x, t) := e in bytes_eqb (cid_text (ck_of cks) x) t) (t_cid tb).
+
+(* one COMPARE case: checksums, tables, type, two values ->
+   (well-typed?, pytezos result, spec result, do the concrete key_hash / chain_id texts equal the real ones?) *)
+Definition compare_case (x : list (bytes * bytes) * text_tables * cty * val * val) : bool * Z * Z * bool :=
+  let '(cks, tb, t, a, b) := x in
+  let w := has_type t a && has_type t b in
+  (w, cmp_Z (py_compare (texts_of tb) a b), if w then cmp_Z (cmp t a b) else 0%Z, texts_match cks tb).
+
+Definition compare_case_eqb (x y : bool * Z * Z * bool) : bool :=
+  let '(w1, p1, s1, m1) := x in let '(w2, p2, s2, m2) := y in
+  Bool.eqb w1 w2 && Z.eqb p1 p2 && Z.eqb s1 s2 && Bool.eqb m1 m2.
